@@ -275,4 +275,176 @@ theorem readBodyR_eq (rk : ReaderKind) (t : Term) (hints : List Nat) (size : Nat
         simp [h2, readBody, this]
       · simp [h2, readBodyFallback_eq]
 
+/-! ### the size loop splits the stream; fuel of `readAll` -/
+
+/-- the size loop splits the stream: what it returns as size bytes and rest is the stream -/
+theorem sizeLoop_split (t : Term) : ∀ (k : Nat) (first : Bool) (s buf rest : List Byte),
+    sizeLoop t k first s = .bytes buf rest → s = buf ++ rest
+  | 0, _, s, buf, rest, h => by
+    simp only [sizeLoop, SizeRead.bytes.injEq] at h
+    obtain ⟨rfl, rfl⟩ := h; rfl
+  | k+1, first, [], buf, rest, h => by
+    simp only [sizeLoop] at h
+    cases t with
+    | eof =>
+      cases first <;> simp at h
+      obtain ⟨rfl, rfl⟩ := h; rfl
+    | err e => simp at h
+  | k+1, first, b :: s, buf, rest, h => by
+    simp only [sizeLoop] at h
+    by_cases hb : b.toNat < 128
+    · simp only [hb, if_true, SizeRead.bytes.injEq] at h
+      obtain ⟨rfl, rfl⟩ := h; rfl
+    · simp only [hb, if_false] at h
+      cases hc : sizeLoop t k false s with
+      | bytes bs r =>
+        rw [hc] at h
+        simp only [SizeRead.bytes.injEq] at h
+        obtain ⟨rfl, rfl⟩ := h
+        rw [sizeLoop_split t k false s bs r hc]; rfl
+      | ret e => rw [hc] at h; simp at h
+
+theorem sizeLoop_ret (t : Term) : ∀ (k : Nat) (first : Bool) (s : List Byte) (e : Term),
+    sizeLoop t k first s = .ret e → e = t ∧ (first = true → t = .eof → s = [])
+  | 0, _, s, e, h => by simp [sizeLoop] at h
+  | k+1, first, [], e, h => by
+    simp only [sizeLoop] at h
+    cases t with
+    | eof => cases first <;> simp at h; exact ⟨h.symm, fun _ _ => rfl⟩
+    | err c => simp at h; exact ⟨h.symm, fun _ _ => rfl⟩
+  | k+1, first, b :: s, e, h => by
+    simp only [sizeLoop] at h
+    by_cases hb : b.toNat < 128
+    · simp [hb] at h
+    · simp only [hb, if_false] at h
+      cases hc : sizeLoop t k false s with
+      | bytes bs r => rw [hc] at h; simp at h
+      | ret e' =>
+        rw [hc] at h
+        simp only [SizeRead.ret.injEq] at h
+        subst h
+        have ih := sizeLoop_ret t k false s e' hc
+        refine ⟨ih.1, ?_⟩
+        intro _ ht
+        -- with `t = eof` and `first = false` the loop never returns
+        exfalso
+        subst ht
+        clear ih
+        revert hc
+        exact sizeLoop_false_eof k s e'
+where
+  sizeLoop_false_eof : ∀ (k : Nat) (s : List Byte) (e : Term), sizeLoop .eof k false s ≠ .ret e
+    | 0, s, e => by simp [sizeLoop]
+    | k+1, [], e => by simp [sizeLoop]
+    | k+1, b :: s, e => by
+      simp only [sizeLoop]
+      by_cases hb : b.toNat < 128
+      · simp [hb]
+      · simp only [hb, if_false]
+        cases hc : sizeLoop .eof k false s with
+        | bytes bs r => simp
+        | ret e' => exact absurd hc (sizeLoop_false_eof k s e')
+
+/-- every outcome leaves the reader at a suffix of the stream -/
+theorem rest_suffix (maxSize : Int) (t : Term) (s : List Byte) :
+    ∃ used, s = used ++ (unmarshalFrom maxSize t s).2 := by
+  simp only [unmarshalFrom, unmarshalWith]
+  cases hs : sizeLoop t maxVarintLen64 true s with
+  | ret e => exact ⟨s, by simp⟩
+  | bytes buf rest =>
+    have hsp := sizeLoop_split t _ _ _ _ _ hs
+    simp only [afterSize]
+    cases consumeVarint buf with
+    | truncated => exact ⟨buf, hsp⟩
+    | overflow => exact ⟨buf, hsp⟩
+    | ok v n =>
+      simp only
+      cases tooLarge maxSize v with
+      | some mx => exact ⟨buf, hsp⟩
+      | none =>
+        simp only [readBody]
+        split
+        · exact ⟨buf, hsp⟩
+        · split
+          · exact ⟨buf ++ rest.take v, by rw [hsp]; simp⟩
+          · exact ⟨s, by simp⟩
+
+/-- a successful call consumes at least one byte -/
+theorem ok_rest_lt (maxSize : Int) (t : Term) (s body rest : List Byte)
+    (h : unmarshalFrom maxSize t s = (.ok body, rest)) : rest.length < s.length := by
+  simp only [unmarshalFrom, unmarshalWith] at h
+  cases hs : sizeLoop t maxVarintLen64 true s with
+  | ret e => rw [hs] at h; cases e <;> simp [Term.clean] at h
+  | bytes buf rest0 =>
+    rw [hs] at h
+    have hsp := sizeLoop_split t _ _ _ _ _ hs
+    simp only [afterSize] at h
+    cases hc : consumeVarint buf with
+    | truncated => rw [hc] at h; simp at h
+    | overflow => rw [hc] at h; simp at h
+    | ok v n =>
+      rw [hc] at h
+      simp only at h
+      have hne : buf ≠ [] := by
+        intro e; subst e; simp [consumeVarint, consumeVarintAux] at hc
+      have hbl : 0 < buf.length := List.length_pos_iff.mpr hne
+      cases htl : tooLarge maxSize v with
+      | some mx => rw [htl] at h; simp at h
+      | none =>
+        rw [htl] at h
+        simp only [readBody] at h
+        split at h
+        · simp at h
+        · split at h
+          · simp only [Prod.mk.injEq, Result.ok.injEq] at h
+            rw [hsp, ← h.2]; simp; omega
+          · cases t <;> simp [Term.short] at h
+
+theorem readAllFuel_isSome (maxSize : Int) (t : Term) : ∀ (fuel : Nat) (s : List Byte),
+    s.length < fuel → (readAllFuel maxSize t fuel s).isSome
+  | 0, s, h => by omega
+  | fuel+1, s, h => by
+    simp only [readAllFuel]
+    cases hu : unmarshalFrom maxSize t s with
+    | mk r rest =>
+      cases r with
+      | ok b =>
+        have := ok_rest_lt maxSize t s b rest hu
+        have ih := readAllFuel_isSome maxSize t fuel rest (by omega)
+        simp only [Option.isSome_map]; exact ih
+      | _ => simp
+
+theorem readAllFuel_succ (maxSize : Int) (t : Term) : ∀ (fuel : Nat) (s : List Byte) x,
+    readAllFuel maxSize t fuel s = some x → readAllFuel maxSize t (fuel + 1) s = some x
+  | 0, s, x, h => by simp [readAllFuel] at h
+  | fuel+1, s, x, h => by
+    rw [readAllFuel] at h ⊢
+    cases hu : unmarshalFrom maxSize t s with
+    | mk r rest =>
+      rw [hu] at h
+      cases r with
+      | ok b =>
+        simp only [Option.map_eq_some_iff] at h ⊢
+        obtain ⟨y, hy, hxy⟩ := h
+        exact ⟨y, readAllFuel_succ maxSize t fuel rest y hy, hxy⟩
+      | _ => simpa using h
+
+theorem readAllFuel_le (maxSize : Int) (t : Term) (f g : Nat) (s : List Byte) x (hfg : f ≤ g)
+    (h : readAllFuel maxSize t f s = some x) : readAllFuel maxSize t g s = some x := by
+  induction hfg with
+  | refl => exact h
+  | step _ ih => exact readAllFuel_succ maxSize t _ s x ih
+
+/-- `readAll` never runs out of fuel -/
+theorem readAll_isSome (maxSize : Int) (t : Term) (s : List Byte) : (readAll maxSize t s).isSome :=
+  readAllFuel_isSome maxSize t _ s (by omega)
+
+theorem readAllFuel_eq_readAll (maxSize : Int) (t : Term) (fuel : Nat) (s : List Byte) (h : s.length < fuel) :
+    readAllFuel maxSize t fuel s = readAll maxSize t s := by
+  have hs := readAll_isSome maxSize t s
+  obtain ⟨x, hx⟩ := Option.isSome_iff_exists.mp hs
+  rw [hx]
+  exact readAllFuel_le maxSize t _ _ s x (by omega) hx
+
+
 end Model.Delim
